@@ -525,6 +525,13 @@ def fake_http_proxy(c, a, rec):
         c.sendall(b'\x00\x01\x02 garbage\r\n\r\n')
     elif host == 'slow.test':
         time.sleep(30)
+    elif host.startswith('glued-'):
+        # the origin speaks first and its n bytes travel in the same segment as the proxy's reply
+        n = int(host.split('-')[1].split('.')[0])
+        c.sendall(b'HTTP/1.1 200 OK\r\n\r\n' + b'B' * n)
+        if rest:
+            c.sendall(rest)
+        _echo_loop(c)
     elif host.startswith('late-'):
         # answers 200 after n seconds, then echoes
         time.sleep(float(host.split('-')[1].split('.')[0]))
@@ -562,6 +569,10 @@ def fake_socks_proxy(c, a, rec):
             return
         elif host == 'slow.test':
             time.sleep(30)
+        elif host.startswith('glued-'):
+            n = int(host.split('-')[1].split('.')[0])
+            c.sendall(b'\x05\x00\x00\x01\0\0\0\0\0\0' + b'B' * n)
+            _echo_loop(c)
         else:
             c.sendall(b'\x05\x00\x00\x01\0\0\0\0\0\0')
             _echo_loop(c)
